@@ -44,9 +44,12 @@ for d in demos:
 def run_demo(tag):
     res = {}
     for p in pkgs_demo:
-        cmd = "go test -vet=off -count=1 -run 'Seed|ZZ|Demo' ./%s/ 2>&1 | tail -15" % p
-        rc, o = sh(cmd + "; exit ${PIPESTATUS[0]}", cwd=wt, e=dict(env, SHELL="/bin/bash"))
-        rc2, o2 = sh("bash -c \"cd %s && go test -vet=off -count=1 -run 'Seed|ZZ|Demo' ./%s/ > /tmp/seed_demo.log 2>&1; echo EXIT=\\$?\"" % (wt, p))
+        if p.startswith("integration_tests"):
+            # separate module: run from its own directory
+            rel = p[len("integration_tests"):].lstrip("/") or "."
+            rc2, o2 = sh("bash -c \"cd %s/integration_tests && go test -vet=off -count=1 -run 'Seed|ZZ|Demo' ./%s > /tmp/seed_demo.log 2>&1; echo EXIT=\\$?\"" % (wt, rel))
+        else:
+            rc2, o2 = sh("bash -c \"cd %s && go test -vet=off -count=1 -run 'Seed|ZZ|Demo' ./%s/ > /tmp/seed_demo.log 2>&1; echo EXIT=\\$?\"" % (wt, p))
         ok = "EXIT=0" in o2
         res[p] = ok
         meta["ran"].append({"step": "demo " + tag, "pkg": p, "passed": ok, "tail": open("/tmp/seed_demo.log").read()[-600:]})
